@@ -41,7 +41,7 @@ theorem solenoid (L k mx my E m : ℝ) : Symp6 (block6 (solenoidMap L k mx my E 
 
 theorem hcorrector (L a E m : ℝ) : Symp6 (block6 (hcorMap L a E m)) := hcorMap_symplectic L a E m
 theorem vcorrector (L a E m : ℝ) : Symp6 (block6 (vcorMap L a E m)) := vcorMap_symplectic L a E m
-theorem undulator (L E m : ℝ) : Symp6 (block6 (undulatorMapPinned L E m)) := undulator_symplectic L E m
+theorem undulator (L E m : ℝ) : Symp6 (block6 (undulatorMap L E m)) := undulator_symplectic L E m
 theorem marker : Symp6 (block6 (identMap : Mat7 ℝ)) := identMap_symplectic
 
 /-- zero-voltage cavity = `base_rmatrix(k1=0,hx=0)`: symplectic -/
@@ -70,7 +70,7 @@ theorem seventh_row :
     (∀ (p : DipoleP ℝ) (E m : ℝ), (dipoleMap p E m).Affine) ∧
     (∀ L k mx my E m : ℝ, (solenoidMap L k mx my E m).Affine) ∧
     (∀ L a E m : ℝ, (hcorMap L a E m).Affine) ∧ (∀ L a E m : ℝ, (vcorMap L a E m).Affine) ∧
-    (∀ L E m : ℝ, (undulatorMapPinned L E m).Affine) ∧ (∀ e : CavE ℝ, (cavRof e).Affine) ∧
+    (∀ L E m : ℝ, (undulatorMap L E m).Affine) ∧ (∀ e : CavE ℝ, (cavRof e).Affine) ∧
     (identMap : Mat7 ℝ).Affine :=
   ⟨driftMap_affine, quadMap_affine, dipoleMap_affine, solenoidMap_affine, hcorMap_affine, vcorMap_affine,
     undulator_affine, cavRof_affine, identMap_affine⟩
